@@ -966,15 +966,25 @@ all_inventory (object_t * ob, int override_master)
     {
       display_hidden = -1;
     }
+  /* The master is asked before the inventory is walked, not in the middle of it:
+   * valid_hide() is LPC code, which can move or destruct what we are counting, and the
+   * array below is made for the objects counted here. */
+  if (display_hidden == -1)
+    {
+      for (cur = ob->contains; cur; cur = cur->next_inv)
+        if (cur->flags & O_HIDDEN)
+          {
+            display_hidden = valid_hide (current_object);
+            break;
+          }
+      if (display_hidden == -1)
+        display_hidden = 0;
+    }
   cnt = 0;
   for (cur = ob->contains; cur; cur = cur->next_inv)
     {
       if (cur->flags & O_HIDDEN)
         {
-          if (display_hidden == -1)
-            {
-              display_hidden = valid_hide (current_object);
-            }
           if (display_hidden)
             cnt++;
         }
@@ -1334,6 +1344,18 @@ f_sort_array (void)
  */
 static int valid_hide_flag;
 
+/* is there a hidden object somewhere inside? */
+static int
+deep_inventory_hidden (object_t * ob)
+{
+  object_t *cur;
+
+  for (cur = ob->contains; cur; cur = cur->next_inv)
+    if ((cur->flags & O_HIDDEN) || deep_inventory_hidden (cur))
+      return 1;
+  return 0;
+}
+
 static int
 deep_inventory_count (object_t * ob)
 {
@@ -1347,8 +1369,6 @@ deep_inventory_count (object_t * ob)
     {
       if (cur->flags & O_HIDDEN)
         {
-          if (!valid_hide_flag)
-            valid_hide_flag = 1 + (valid_hide (current_object) ? 1 : 0);
           if (valid_hide_flag & 2)
             {
               cnt++;
@@ -1403,7 +1423,12 @@ deep_inventory (object_t * ob, int take_top)
   array_t *dinv;
   int i;
 
-  valid_hide_flag = 0;
+  /* The master is asked before the two passes, not in the middle of the first one:
+   * valid_hide() is LPC code, which can move or destruct objects, and what the second
+   * pass collects has to fit the array made for what the first one counted. */
+  valid_hide_flag = 1;
+  if (deep_inventory_hidden (ob) && valid_hide (current_object))
+    valid_hide_flag |= 2;
 
   /*
    * count visible objects in an object's inventory, and in their
@@ -2023,6 +2048,16 @@ array_t* children (char *str) {
 
   sl = strlen (tmpbuf);
 
+  /* valid_hide() is LPC code in the master: it is asked before obj_list is walked (a
+   * destructed object's next_all leads into the list of destructed objects),
+   * and before the temporary table exists (it can raise an error) */
+  for (ob = obj_list; ob; ob = ob->next_all)
+    if (ob->flags & O_HIDDEN)
+      {
+        display_hidden = valid_hide (current_object);
+        break;
+      }
+
   if (!(tmp_children = (object_t **)
         DMALLOC (sizeof (object_t *) * (t_sz = 50),
                  TAG_TEMPORARY, "children: tmp_children")))
@@ -2036,11 +2071,7 @@ array_t* children (char *str) {
         {
           if (ob->flags & O_HIDDEN)
             {
-              if (display_hidden == -1)
-                {
-                  display_hidden = valid_hide (current_object);
-                }
-              if (!display_hidden)
+              if (display_hidden <= 0)
                 continue;
             }
           tmp_children[i] = ob;
@@ -2075,12 +2106,20 @@ array_t* children (char *str) {
 array_t *
 livings ()
 {
-  int nob, apply_valid_hide, hide_is_valid = 0;
+  int nob, hide_is_valid = 0;
   object_t *ob, **obtab;
   array_t *vec;
 
   nob = 0;
-  apply_valid_hide = 1;
+
+  /* valid_hide() is LPC code in the master: it is asked before obj_list is walked (a
+   * destructed object's next_all leads into the list of destructed objects) */
+  for (ob = obj_list; ob != NULL; ob = ob->next_all)
+    if ((ob->flags & O_HIDDEN) && (ob->flags & O_ENABLE_COMMANDS))
+      {
+        hide_is_valid = valid_hide (current_object);
+        break;
+      }
 
   obtab =
     CALLOCATE (CONFIG_INT (__MAX_ARRAY_SIZE__), object_t *, TAG_TEMPORARY,
@@ -2092,11 +2131,6 @@ livings ()
         continue;
       if (ob->flags & O_HIDDEN)
         {
-          if (apply_valid_hide)
-            {
-              apply_valid_hide = 0;
-              hide_is_valid = valid_hide (current_object);
-            }
           if (!hide_is_valid)
             continue;
         }
@@ -2150,12 +2184,18 @@ f_objects (void)
   /* First collect the candidates, before the filter is run on any of them: it may
    * destruct or load objects, which relinks obj_list (a destructed object's next_all
    * leads into the list of destructed objects). */
+  for (ob = obj_list; ob; ob = ob->next_all)
+    if (ob->flags & O_HIDDEN)
+      {
+        /* the master is asked before the walk: valid_hide() is LPC code too */
+        display_hidden = 1 + !!valid_hide (current_object);
+        break;
+      }
+
   for (n = 0, ob = obj_list; ob; ob = ob->next_all)
     {
       if (ob->flags & O_HIDDEN)
         {
-          if (!display_hidden)
-            display_hidden = 1 + !!valid_hide (current_object);
           if (!(display_hidden & 2))
             continue;
         }
